@@ -3,6 +3,7 @@
 from __future__ import annotations
 
 import ast
+import re
 import copy
 import struct
 from dataclasses import dataclass, field
@@ -183,6 +184,20 @@ def classify_payload(repo: Repo, ci: Optional[ClassInfo], e: ast.expr, sf=None) 
     text = norm(e)
     if isinstance(e, ast.Constant) and e.value == b"":
         return Payload("empty", text=text)
+    # b"%b\0" % X  is  X + b"\0"
+    if isinstance(e, ast.BinOp) and isinstance(e.op, ast.Mod) and isinstance(e.left, ast.Constant) and e.left.value in (b"%b\0", b"%s\0") \
+            and not isinstance(e.right, (ast.Tuple, ast.Dict)):
+        return classify_payload(repo, ci, ast.copy_location(ast.BinOp(left=e.right, op=ast.Add(), right=ast.Constant(value=b"\0")), e), sf)
+    # pack("32s", X): X NUL-padded and cut to exactly 32 bytes
+    if isinstance(e, ast.Call) and norm(e.func) in ("pack", "struct.pack") and len(e.args) == 2 and not isinstance(e.args[1], ast.Starred):
+        try:
+            f_ = repo.fold(e.args[0], ci=ci, sf=sf)
+        except Exception:
+            f_ = None
+        m_ = re.fullmatch(r"[<>=!@]?(\d+)s", f_) if isinstance(f_, str) else None
+        if m_:
+            inner = e.args[1]
+            return Payload("fixedstring", src=attr_reads(inner), length=int(m_.group(1)), truncation=_has_encode_slice(inner), text=text)
     if isinstance(e, ast.Call) and norm(e.func) in ("pack", "struct.pack") and e.args:
         fmt = parse_fmt(repo, ci, e.args[0], sf=sf)
         args = list(e.args[1:])
@@ -424,6 +439,20 @@ def is_nul_truncation(e: ast.expr, data: str) -> bool:
         b = e.body
         if isinstance(b, ast.Subscript) and isinstance(b.slice, ast.Slice) and b.slice.lower is None and norm(b.value) == data \
                 and b.slice.upper is not None and norm(b.slice.upper) in (f"{data}.find(0)", f"{data}.index(0)", f"{data}.find(b'\\x00')", f"{data}.index(b'\\x00')"):
+            return True
+    # D[: D.find(0) if 0 in D else len(D)]
+    if isinstance(e, ast.Subscript) and isinstance(e.slice, ast.Slice) and e.slice.lower is None and e.slice.step is None and norm(e.value) == data \
+            and isinstance(e.slice.upper, ast.IfExp):
+        u = e.slice.upper
+        t, b, o = u.test, u.body, u.orelse
+        if isinstance(t, ast.UnaryOp) and isinstance(t.op, ast.Not):
+            t, b, o = t.operand, o, b
+        if isinstance(t, ast.Compare) and len(t.ops) == 1 and isinstance(t.ops[0], ast.NotIn):
+            t = ast.Compare(left=t.left, ops=[ast.In()], comparators=t.comparators)
+            b, o = o, b
+        if isinstance(t, ast.Compare) and len(t.ops) == 1 and isinstance(t.ops[0], ast.In) and norm(t.comparators[0]) == data \
+                and norm(t.left) in ("0", "b'\\x00'") and norm(o) in (f"len({data})", "None") \
+                and norm(b) in (f"{data}.find(0)", f"{data}.index(0)", f"{data}.find(b'\\x00')", f"{data}.index(b'\\x00')"):
             return True
     # D.split(b"\0", 1)[0] / D.split(b"\0")[0] / D.partition(b"\0")[0]
     if isinstance(e, ast.Subscript) and norm(e.slice) == "0" and isinstance(e.value, ast.Call) and isinstance(e.value.func, ast.Attribute) \
